@@ -797,6 +797,23 @@ pub fn gen_project(rng: &mut Rng, knobs: &ProjectKnobs) -> Project {
             }
         }
     }
+    if convert && sources.len() >= 2 && rng.chance(1, 3) {
+        // two sources that require each other: harmless without bundling (requires are only
+        // rewritten), and the work of a long-lived worker must not trip over it either
+        let pairs: Vec<(usize, usize)> = (0..sources.len())
+            .flat_map(|i| sources[i].requires.iter().filter_map(move |r| Some((i, r.clone()))).collect::<Vec<_>>())
+            .filter_map(|(i, r)| sources.iter().position(|s| s.path == r).map(|j| (i, j)))
+            .filter(|(i, j)| i != j)
+            .collect();
+        if let Some((i, j)) = pairs.first().cloned() {
+            let back = sources[i].path.clone();
+            if !sources[j].requires.contains(&back) && !sources[j].use_alias && !sources[i].use_alias {
+                sources[j].requires.push(back);
+                sources[i].bare = false;
+                sources[j].bare = false;
+            }
+        }
+    }
     if luau && !input_is_file && rng.chance(1, 4) {
         // a module folder: the same literal `require("./helper_mod")` written in `pkg/init.luau`
         // (resolved from the parent of the folder) and in `pkg/other.luau` (resolved from
@@ -887,6 +904,15 @@ pub fn gen_project(rng: &mut Rng, knobs: &ProjectKnobs) -> Project {
                         body: Body::Text("in a directory named like a source\n".to_owned()),
                     });
                 }
+            }
+        }
+    }
+    if bundle.is_some() {
+        // a module without a `return` cannot be inlined: the statement-less bodies are for
+        // projects that do not bundle
+        for s in sources.iter_mut() {
+            if s.body_index >= corpus::FIRST_EMPTY_BODY {
+                s.body_index = 0;
             }
         }
     }
@@ -1157,6 +1183,15 @@ pub fn gen_invocation(
             if backend != Backend::Memory && rng.chance(1, 4) {
                 extra.push(FsEntry {
                     path: join(output, "old-empty"),
+                    body: Body::Dir,
+                });
+            }
+            if backend != Backend::Memory && rng.chance(1, 3) {
+                // a folder that mirrors a source folder exists already (empty): darklua
+                // fills it, and must leave it in place when its sources go away again
+                let sub = *rng.pick(&["sub", "other dir", "sub/deep", "dots.v1.2"]);
+                extra.push(FsEntry {
+                    path: join(output, sub),
                     body: Body::Dir,
                 });
             }
